@@ -40,7 +40,10 @@ RULE = ("L1 (differential CLI runs): regenerable scenarios (kind, seed) -> input
         "--linked-read-distance-cutoff, --gap-threshold, --cut-poly, -B/--min-overlap, --only-snvs, --only-largest-block); "
         "every second diploid scenario of the thorough tier has deep noisy reads. 'polyploid': tri/tetraploid samples, several read islands, "
         "polyphase --threads 1..4 and 8 (plain, -B/--min-overlap, --use-prephasing --include-haploid-sets --sample), haplotag "
-        "--ploidy, compare --ploidy, stats on the polyploid truth phasing. 'input-forms': 4-8 short chromosomes, every VCF-reading subcommand (stats, compare, phase, genotype, polyphase, unphase, "
+        "--ploidy, compare --ploidy, stats on the polyploid truth phasing. 'polyploid-ties': polyphase inputs built for exact ties (ploidy 3/4/5, 1-3 samples, 3-6 blocks of different sizes with the "
+        "large block first, every read spanning the same number of variants, error-free, equal reads per haplotype, optionally "
+        "a duplicated haplotype and identical read layouts per haplotype) compared across --threads 1,2,3,4,8, hash seeds and "
+        "an exact repetition, with and without --reference. 'input-forms': 4-8 short chromosomes, every VCF-reading subcommand (stats, compare, phase, genotype, polyphase, unphase, "
         "haplotag, haplotagphase) on plain / bgzip+tbi / bgzip+csi VCFs, BAM and CRAM alignments (and CRAM output), VCF on "
         "stdin, vcf.gz outputs, with multi-name --chromosome / --regions selections sorted, reversed, shuffled and with a "
         "repeated name. 'misc': find_snv_candidates (3 option sets), hapcut2vcf, "
@@ -197,6 +200,9 @@ def tally_job(ctx, label, job, cfgs):
     for k in ("form", "nchrom_selected", "nregions"):
         if k in job.feat:
             ctx.tally(f"{label}.{k}.{job.sub}.{job.feat[k]}")
+    for k in ("blocks", "block_sizes", "duplicated_haplotype"):
+        if k in job.feat:
+            ctx.tally(f"{label}.ties.{k}={job.feat[k]}")
     for k in ("nsamples", "nchrom", "families", "singletons", "rg_per_sample_max", "input_files", "out_ext", "ploidy",
               "islands", "family", "max_coverage"):
         if k in job.feat:
@@ -279,6 +285,21 @@ def scenario_plan(ctx, rng):
         ex = 4 if k == 0 else rng.choice([0, 1, 2, 3, 4])     # >= 3: second family; 4: plus an unrelated singleton
         plan.append(("diploid", rng.randrange(10 ** 9), {"extra_samples": ex, "second_trio": ex >= 3,
                                                           "nchrom": rng.choice([2, 2, 3]), "deep": k % 2 == 1}))
+    # polyphase built for exact ties in the threading DP: duplicated haplotypes, equal coverage, a large block first
+    tie_fixed = [{"ploidy": 5, "nsamples": 2, "blocks": [30, 10, 12, 8, 10], "reads_per_hap": [40, 16, 20, 12, 16],
+                  "duplicate": True, "shared_starts": True},
+                 {"ploidy": 4, "nsamples": 2, "blocks": [30, 10, 12, 8, 10], "reads_per_hap": [40, 16, 20, 12, 16],
+                  "duplicate": True, "shared_starts": False}]
+    for k in range(ctx.n(2, 8)):
+        if k < 2:
+            prm = dict(tie_fixed[k])
+        else:
+            nb = rng.randint(3, 6)
+            sizes = [rng.randint(24, 36)] + [rng.randint(6, 14) for _ in range(nb - 1)]
+            prm = {"ploidy": rng.choice([3, 4, 5]), "nsamples": rng.choice([1, 2, 3]), "blocks": sizes,
+                   "reads_per_hap": [max(8, 4 * n // 3) for n in sizes], "duplicate": rng.random() < 0.6,
+                   "shared_starts": rng.random() < 0.5, "readlen": rng.choice([3, 4, 4, 5]), "b_sweep": rng.random() < 0.5}
+        plan.append(("polyploid-ties", rng.randrange(10 ** 9), prm))
     for k in range(ctx.n(1, 3)):
         plan.append(("input-forms", rng.randrange(10 ** 9), {"nchrom": 6 if k == 0 else rng.choice([4, 6, 8])}))
     for k in range(ctx.n(1, 4)):
